@@ -8,7 +8,7 @@ A program is a plain dict (JSON-able):
    "late": [names defined after their users], "order": [definition order of funcs in module a]}
 
   F = {"name", "kind": "memento" | "explicit" | "plain", "version": str (explicit only),
-       "module": "a" | "b", "lit", "pos_default", "kw_default", "set_const": [str...],
+       "module": "a" | "b" | "q" (q = module lib of a second package vfq), "lit", "pos_default", "kw_default", "set_const": [str...],
        "tuple_const": [..], "lambda_const", "lambda_default", "inner_const", "inner_default",
        "comp_const", "reads": [dotted names], "calls": [{"target", "form", "arg"}],
        "cluster": None | str, "raises": bool}
@@ -66,6 +66,8 @@ def _call_expr(c, in_module, prog):
         return "%s_alias(%s)" % (t, a)
     if form == "wrapper":
         return "%s_w(%s)" % (t, a)
+    if form == "xpkg":  # callee lives in module lib of the second package vfq, imported as qlib
+        return "qlib.%s(%s)" % (t, a)
     if form == "hidden":
         return "globals()[%r](%s)" % (t, a)
     if form == "nested":
@@ -116,13 +118,20 @@ def render(prog, plain=False, pkg="vfp"):
     """{relative file name: text} for the package. Module b holds the funcs with module == 'b' and is
     imported by a; everything else is in a."""
     files = {"__init__.py": ""}
-    for mod in ("b", "a"):
+    has_q = any(f["module"] == "q" for f in prog["funcs"])
+    if has_q:
+        files["../vfq/__init__.py"] = ""
+    for mod in ("q", "b", "a"):
         funcs = [f for f in prog["funcs"] if f["module"] == mod]
         if mod == "b" and not funcs and not prog.get("b_vars"):
+            continue
+        if mod == "q" and not funcs:
             continue
         parts = [HEADER]
         if not plain:
             parts.append("import twosigma.memento as m\n")
+        if mod == "a" and has_q:
+            parts.append("from vfq import lib as qlib\n")
         if mod == "a" and any(f["module"] == "b" for f in prog["funcs"]):
             parts.append("from . import b\n")
         parts.append(PASSTHRU)
@@ -156,7 +165,7 @@ def render(prog, plain=False, pkg="vfp"):
             for k in prog.get("late", []):
                 if k in prog.get("vars", {}):
                     parts.append(render_var(k, prog["vars"][k]))
-        files["%s.py" % mod] = "\n".join(parts)
+        files["%s.py" % mod if mod != "q" else "../vfq/lib.py"] = "\n".join(parts)
     return files
 
 
@@ -166,6 +175,7 @@ def write_pkg(prog, root, plain=False, pkg="vfp"):
     d = os.path.join(root, pkg)
     os.makedirs(d, exist_ok=True)
     for name, text in render(prog, plain, pkg).items():
+        os.makedirs(os.path.dirname(os.path.join(d, name)), exist_ok=True)
         with open(os.path.join(d, name), "w") as fh:
             fh.write(text)
     return d
